@@ -207,10 +207,46 @@ def case_identity_history(H, g):
                             replay=replay, key='C03/%s/identity_history' % g)
 
 
+def case_act_cloud_size(H, g, N=4100):
+    """size configuration: ONE symbolic transform acting on a cloud of N concrete points (N beyond any plausible fast-path
+    threshold) must give, point by point, what it gives on the first few points alone (which case_laws ties to matrix())."""
+    name = 'C03/%s/Act/one-transform-on-%d-points' % (g, N)
+    K = 3
+
+    def prog(m):
+        X, xs = sym_group(m, g, 'x', 77)
+        gen = torch.Generator().manual_seed(12)
+        P = torch.randn(N, 3, dtype=DT, generator=gen)
+        big = X.Act(P)
+        idx = [0, 1, N // 2, N - 1]
+        small = X.Act(P[idx].contiguous())
+        bt = m.full_terms(big)
+        return [bt[3 * i:3 * i + 3] for i in idx], [m.full_terms(small)[3 * k:3 * k + 3] for k in range(len(idx))], tuple(big.shape), idx
+
+    def replay(model):
+        X = rand_group(g, 77)
+        vals = tensor_from_env(['x%d' % i for i in range(GDIM[g])], model)
+        if float(vals.abs().sum()) != 0:
+            X = pp.LieTensor(vals.to(DT), ltype=X.ltype)
+        gen = torch.Generator().manual_seed(12)
+        P = torch.randn(N, 3, dtype=DT, generator=gen)
+        big = X.Act(P)
+        ref = torch.cat([X.Act(P[i:i + 64]) for i in range(0, N, 64)])
+        e = ((big - ref).abs().amax(-1) / (1e-300 + ref.abs().amax(-1))).max().item()
+        return e > 1e-9, 'Act of one %s element on %d points differs from the same Act on chunks of 64 points by %.3g (relative)' % (g, N, e)
+
+    for ctx, (big, small, shape, idx) in run_paths(H, name, prog, max_paths=4):
+        hyp = H.hyps_of(ctx)
+        H.prove(name + '/shape', [], z3.BoolVal(shape == (N, 3)), replay=replay, key='C03/%s/Act' % g)
+        for k, i in enumerate(idx):
+            for c in range(3):
+                H.same('%s/point%d[%d]' % (name, i, c), hyp, big[k][c], small[k][c], ctx, replay=replay, key='C03/%s/Act' % g, timeout=20)
+
+
 def run(H):
     H.assumptions += ['exact real arithmetic (round-off outside the claim)', 'group inputs are valid: |q|=1, s>0',
                       'float constants read as their intended rationals']
-    H.bounds += ['single items (batching is C06)', 'float64 thresholds', 'closure is an inductive step from an '
+    H.bounds += ['single items (batching is C06); one transform on a cloud of 4100 concrete points against the same on 4 of them', 'float64 thresholds', 'closure is an inductive step from an '
                  'arbitrary valid element: covers histories of any length in exact arithmetic; float drift over '
                  '1e4 steps is outside']
     for g in GROUPS:
@@ -220,6 +256,7 @@ def run(H):
             case_laws(H, g)
             case_retr_closure(H, g)
             case_identity_history(H, g)
+            case_act_cloud_size(H, g)
         except Exception as e:
             import traceback
             traceback.print_exc()
